@@ -188,9 +188,19 @@ Section LI1.
   Lemma rho_trace l : trace o 2 (rho_mat l) = one.
   Proof. assert (Hii := tr_ii (o:=o)). destruct l; norm; poly Hii. Qed.
 
-  (* every row equation of the LI system holds at choi(V^T), for EVERY matrix V *)
+  (* every row equation of the LI system holds at choi_from_unitary(V), for EVERY matrix V *)
   Lemma li_row_identity (V : @mat K) i m : In i li_inputs ->
-    sumn 16 (fun x => li_row o ii 1 ([i], [m]) x * vec 4 (choi_T V) x)
+    sumn 16 (fun x => li_row o ii 1 ([i], [m]) x * vec 4 (choi_from_unitary o 2 V) x)
+    = pauli_expect (o:=o) (ii:=ii) 1 (out_rho o 2 V (rho_mat i)) [m].
+  Proof.
+    intros Hi. assert (Hii := tr_ii (o:=o)).
+    unfold li_inputs in Hi. simpl in Hi.
+    destruct Hi as [<-|[<-|[<-|[<-|[]]]]]; destruct m; norm; poly Hii.
+  Qed.
+
+  (* ... and with the rows of the pinned tree it holds at choi(V^T) *)
+  Lemma li_row_pinned_identity (V : @mat K) i m : In i li_inputs ->
+    sumn 16 (fun x => li_row_pinned o ii 1 ([i], [m]) x * vec 4 (choi_T V) x)
     = pauli_expect (o:=o) (ii:=ii) 1 (out_rho o 2 V (rho_mat i)) [m].
   Proof.
     intros Hi. assert (Hii := tr_ii (o:=o)).
@@ -202,6 +212,7 @@ Section LI1.
   Definition li_keys1 : list (instr * mstr) :=
     flat_map (fun i => map (fun m => ([i], [m])) meas_keys) li_inputs.
   Definition T1 : @mat K := fun r x => li_row o ii 1 (nth r li_keys1 ([], [])) x.
+  Definition T1p : @mat K := fun r x => li_row_pinned o ii 1 (nth r li_keys1 ([], [])) x.
 
   Definition kappa (l : inlab) : @mat K :=
     let a := - ((one + ii) * (hh * hh)) in
@@ -213,7 +224,12 @@ Section LI1.
     | YP => m22 o zero ii (- ii) zero
     | _ => mzero o
     end.
+  (* x = (b, a, b', a') for the repaired rows (Pauli index first), (a, b, a', b') for the pinned ones *)
   Definition L1 : @mat K := fun x r =>
+    let k := nth r li_keys1 ([], []) in
+    let i := hd ZP (fst k) in let m := hd PI (snd k) in
+    (hh * hh) * (kappa i ((x / 4) mod 2)%nat ((x mod 4) mod 2)%nat * pauli_mat m (x / 4 / 2)%nat (x mod 4 / 2)%nat).
+  Definition L1p : @mat K := fun x r =>
     let k := nth r li_keys1 ([], []) in
     let i := hd ZP (fst k) in let m := hd PI (snd k) in
     (hh * hh) * (kappa i (x / 4 / 2)%nat (x mod 4 / 2)%nat * pauli_mat m ((x / 4) mod 2)%nat ((x mod 4) mod 2)%nat).
@@ -242,18 +258,21 @@ Section LI1.
     destruct a as [|[|[|[|a]]]]; [| | | |lia]; (destruct b as [|[|[|[|b]]]]; [| | | |lia]); reflexivity.
   Qed.
 
+  Lemma idx16 y : y < 16 -> y / 4 / 2 < 2 /\ y mod 4 / 2 < 2 /\ (y / 4) mod 2 < 2 /\ (y mod 4) mod 2 < 2.
+  Proof.
+    intros Hy. repeat split; try (apply Nat.mod_upper_bound; lia).
+    - apply Nat.div_lt_upper_bound; [lia|]. apply Nat.div_lt_upper_bound; lia.
+    - apply Nat.div_lt_upper_bound; [lia|]. apply Nat.mod_upper_bound. lia.
+  Qed.
+
   Lemma L1_T1 x x' : x < 16 -> x' < 16 -> sumn 16 (fun r => L1 x r * T1 r x') = mid o x x'.
   Proof.
     intros Hx Hx'. change 16 with (4 * 4)%nat. rewrite sumn_prod.
-    assert (B : forall y, y < 16 -> y / 4 / 2 < 2 /\ y mod 4 / 2 < 2 /\ (y / 4) mod 2 < 2 /\ (y mod 4) mod 2 < 2).
-    { intros y Hy. repeat split; try (apply Nat.mod_upper_bound; lia).
-      - apply Nat.div_lt_upper_bound; [lia|]. apply Nat.div_lt_upper_bound; lia.
-      - apply Nat.div_lt_upper_bound; [lia|]. apply Nat.mod_upper_bound. lia. }
-    destruct (B x Hx) as [B1 [B2 [B3 B4]]]. destruct (B x' Hx') as [C1 [C2 [C3 C4]]].
+    destruct (idx16 x Hx) as [B1 [B2 [B3 B4]]]. destruct (idx16 x' Hx') as [C1 [C2 [C3 C4]]].
     rewrite (sumn_ext 4 _ (fun a => sumn 4 (fun b =>
-      (kappa (nth a li_inputs ZP) (x / 4 / 2) (x mod 4 / 2) * rho_mat (nth a li_inputs ZP) (x' / 4 / 2) (x' mod 4 / 2)) *
-      ((hh * hh) * (pauli_mat (nth b meas_keys PI) ((x / 4) mod 2) ((x mod 4) mod 2) *
-                    conj (pauli_mat (nth b meas_keys PI) ((x' / 4) mod 2) ((x' mod 4) mod 2))))))).
+      (kappa (nth a li_inputs ZP) ((x / 4) mod 2) ((x mod 4) mod 2) * rho_mat (nth a li_inputs ZP) ((x' / 4) mod 2) ((x' mod 4) mod 2)) *
+      ((hh * hh) * (pauli_mat (nth b meas_keys PI) (x / 4 / 2) (x mod 4 / 2) *
+                    conj (pauli_mat (nth b meas_keys PI) (x' / 4 / 2) (x' mod 4 / 2))))))).
     - rewrite sumn_pair_mul, dualK, dualP by assumption.
       rewrite <- (mid_split_m 4 x x') by lia.
       rewrite <- (mid_split_m 2 (x / 4) (x' / 4)), <- (mid_split_m 2 (x mod 4) (x' mod 4)) by lia. ring.
@@ -263,18 +282,45 @@ Section LI1.
       rewrite sr_conj_mul, sr_conj_inv. ring.
   Qed.
 
-  Lemma T1_kernel (y : nat -> K) : (forall r, r < 16 -> sumn 16 (fun x => T1 r x * y x) = zero) ->
-    forall x, x < 16 -> y x = zero.
+  Lemma L1p_T1p x x' : x < 16 -> x' < 16 -> sumn 16 (fun r => L1p x r * T1p r x') = mid o x x'.
   Proof.
-    intros H x Hx.
-    transitivity (sumn 16 (fun x' => mid o x x' * y x')).
-    { rewrite (sumn_single 16 x) by (try assumption; intros k _ Hk; unfold mid; apply Nat.eqb_neq in Hk;
+    intros Hx Hx'. change 16 with (4 * 4)%nat. rewrite sumn_prod.
+    destruct (idx16 x Hx) as [B1 [B2 [B3 B4]]]. destruct (idx16 x' Hx') as [C1 [C2 [C3 C4]]].
+    rewrite (sumn_ext 4 _ (fun a => sumn 4 (fun b =>
+      (kappa (nth a li_inputs ZP) (x / 4 / 2) (x mod 4 / 2) * rho_mat (nth a li_inputs ZP) (x' / 4 / 2) (x' mod 4 / 2)) *
+      ((hh * hh) * (pauli_mat (nth b meas_keys PI) ((x / 4) mod 2) ((x mod 4) mod 2) *
+                    conj (pauli_mat (nth b meas_keys PI) ((x' / 4) mod 2) ((x' mod 4) mod 2))))))).
+    - rewrite sumn_pair_mul, dualK, dualP by assumption.
+      rewrite <- (mid_split_m 4 x x') by lia.
+      rewrite <- (mid_split_m 2 (x / 4) (x' / 4)), <- (mid_split_m 2 (x mod 4) (x' mod 4)) by lia. ring.
+    - intros a Ha. apply sumn_ext. intros b Hb. unfold L1p, T1p. rewrite (li_keys1_nth a b Ha Hb).
+      cbn [fst snd hd]. unfold li_row_pinned, vec, kron, mconj. cbn [fst snd kfold fold_left].
+      change (2 ^ 1) with 2. change (2 * 2)%nat with 4.
+      rewrite sr_conj_mul, sr_conj_inv. ring.
+  Qed.
+
+  (* a matrix with a left inverse has a trivial kernel *)
+  Lemma left_inverse_kernel N (L T : @mat K) :
+    (forall x x', x < N -> x' < N -> sumn N (fun r => L x r * T r x') = mid o x x') ->
+    forall y : nat -> K, (forall r, r < N -> sumn N (fun x => T r x * y x) = zero) ->
+    forall x, x < N -> y x = zero.
+  Proof.
+    intros HL y H x Hx.
+    transitivity (sumn N (fun x' => mid o x x' * y x')).
+    { rewrite (sumn_single N x) by (try assumption; intros k _ Hk; unfold mid; apply Nat.eqb_neq in Hk;
                                       rewrite Nat.eqb_sym, Hk; ring).
       unfold mid. rewrite Nat.eqb_refl. ring. }
-    rewrite (sumn_ext 16 _ (fun x' => sumn 16 (fun r => L1 x r * (T1 r x' * y x')))).
+    rewrite (sumn_ext N _ (fun x' => sumn N (fun r => L x r * (T r x' * y x')))).
     - rewrite sumn_swap. apply sumn_zero'. intros r Hr. rewrite sumn_mul_l, H by assumption. ring.
-    - intros x' Hx'. rewrite <- (L1_T1 x x') by assumption. rewrite <- sumn_mul_r. apply sumn_ext. intros; ring.
+    - intros x' Hx'. rewrite <- (HL x x') by assumption. rewrite <- sumn_mul_r. apply sumn_ext. intros; ring.
   Qed.
+
+  Lemma T1_kernel (y : nat -> K) : (forall r, r < 16 -> sumn 16 (fun x => T1 r x * y x) = zero) ->
+    forall x, x < 16 -> y x = zero.
+  Proof. apply (left_inverse_kernel 16 L1 T1). exact L1_T1. Qed.
+  Lemma T1p_kernel (y : nat -> K) : (forall r, r < 16 -> sumn 16 (fun x => T1p r x * y x) = zero) ->
+    forall x, x < 16 -> y x = zero.
+  Proof. apply (left_inverse_kernel 16 L1p T1p). exact L1p_T1p. Qed.
 
   Lemma pauli_expect_compat n rho rho' c : meq (2 ^ n) rho rho' ->
     pauli_expect (o:=o) (ii:=ii) n rho c = pauli_expect (o:=o) (ii:=ii) n rho' c.
@@ -330,12 +376,18 @@ Section LI1.
     apply G. intros i Hi. rewrite istrings_1 in Hi. apply in_map_iff in Hi as [p [<- _]]. exists p. reflexivity.
   Qed.
 
-  Theorem li_returns_choi_of_transpose solve V req :
+  (* LI with any row function whose system is solved by J0 and has a trivial kernel returns J0 *)
+  Lemma li_gen_solution (row : nat -> instr * mstr -> nat -> K) (J0 : @mat K) solve V req :
     pinv_contract solve -> lunit o 2 V -> Permutation req (req_canonical 1 false) ->
-    exists J, li_process o ii solve 1 req (process_ideal o ii hh 1 V (istrings li_inputs 1) req) = Ok J /\
-              meq 4 J (choi_T V).
+    (forall i m, In i li_inputs ->
+       sumn 16 (fun x => row 1 ([i], [m]) x * vec 4 J0 x)
+       = pauli_expect (o:=o) (ii:=ii) 1 (out_rho o 2 V (rho_mat i)) [m]) ->
+    (forall y : nat -> K, (forall r, r < 16 -> sumn 16 (fun x => row 1 (nth r li_keys1 ([], [])) x * y x) = zero) ->
+       forall x, x < 16 -> y x = zero) ->
+    exists J, li_process_gen o row solve 1 req (process_ideal o ii hh 1 V (istrings li_inputs 1) req) = Ok J /\
+              meq 4 J J0.
   Proof.
-    intros Hs HV Hp. unfold li_process, process_ideal.
+    intros Hs HV Hp Hrow Hker. unfold li_process_gen, process_ideal.
     rewrite (run_required_family (fun i s => ideal_data o ii hh 1 s (out_rho o 2 V (in_rho o ii hh i)))) by (try lia; exact Hp).
     cbn [bind]. rewrite (process_expectations V li_inputs HV). cbn [bind].
     eexists. split; [reflexivity|].
@@ -347,7 +399,7 @@ Section LI1.
               pauli_expect (o:=o) (ii:=ii) 1 (out_rho o 2 V (in_rho o ii hh (fst (nth r li_keys1 ([], []))))) (snd (nth r li_keys1 ([], [])))).
     { intros r Hr. do 16 (destruct r as [|r]; [reflexivity|]). lia. }
     intros r c Hr Hc. unfold unvec. change (2 ^ 1 * 2 ^ 1)%nat with 4.
-    rewrite (Hs 16 _ _ (vec 4 (choi_T V))).
+    rewrite (Hs 16 _ _ (vec 4 J0)).
     - unfold vec. destruct (div_mod_block 4 r c Hc) as [E1 E2]. rewrite E1, E2. reflexivity.
     - intros q Hq. rewrite Hk, Hb by assumption.
       assert (Hq' : exists a b, a < 4 /\ b < 4 /\ q = (a * 4 + b)%nat).
@@ -356,12 +408,43 @@ Section LI1.
         - apply Nat.mod_upper_bound; lia.
         - rewrite (Nat.div_mod_eq q 4) at 1. lia. }
       destruct Hq' as [a [b [Ha [Hb' ->]]]]. rewrite (li_keys1_nth a b Ha Hb'). cbn [fst snd].
-      rewrite li_row_identity.
+      rewrite Hrow.
       + apply pauli_expect_compat. apply out_rho_compat. apply meq_sym. apply prep_rho1_spec.
       + destruct a as [|[|[|[|a]]]]; simpl; try tauto. lia.
-    - intros y Hy. apply T1_kernel. intros q Hq. rewrite <- (Hy q Hq). apply sumn_ext. intros x _.
-      unfold T1. rewrite Hk by assumption. reflexivity.
+    - intros y Hy. apply Hker. intros q Hq. rewrite <- (Hy q Hq). apply sumn_ext. intros x _.
+      rewrite Hk by assumption. reflexivity.
     - destruct r as [|[|[|[|r]]]]; [| | | |lia]; lia.
+  Qed.
+
+  (* the repaired code: LI on noiseless data returns choi_from_unitary(V) itself *)
+  Theorem li_returns_choi_from_unitary solve V req :
+    pinv_contract solve -> lunit o 2 V -> Permutation req (req_canonical 1 false) ->
+    exists J, li_process o ii solve 1 req (process_ideal o ii hh 1 V (istrings li_inputs 1) req) = Ok J /\
+              meq 4 J (choi_from_unitary o 2 V).
+  Proof.
+    intros Hs HV Hp. apply (li_gen_solution (li_row o ii) (choi_from_unitary o 2 V) solve V req Hs HV Hp).
+    - intros i m Hi. apply li_row_identity. exact Hi.
+    - exact T1_kernel.
+  Qed.
+
+  (* the pinned tree: LI returned the Choi matrix of the TRANSPOSE *)
+  Theorem li_pinned_returns_choi_of_transpose solve V req :
+    pinv_contract solve -> lunit o 2 V -> Permutation req (req_canonical 1 false) ->
+    exists J, li_process_pinned o ii solve 1 req (process_ideal o ii hh 1 V (istrings li_inputs 1) req) = Ok J /\
+              meq 4 J (choi_T V).
+  Proof.
+    intros Hs HV Hp. apply (li_gen_solution (li_row_pinned o ii) (choi_T V) solve V req Hs HV Hp).
+    - intros i m Hi. apply li_row_pinned_identity. exact Hi.
+    - exact T1p_kernel.
+  Qed.
+
+  (* symmetric V: both conventions coincide *)
+  Lemma choi_T_symmetric V : meq 2 (mtrans V) V -> meq 4 (choi_T V) (choi_from_unitary o 2 V).
+  Proof.
+    intros H r c Hr Hc. unfold choi_T, choi_from_unitary, vec.
+    assert (B : forall y, y < 4 -> y / 2 < 2 /\ y mod 2 < 2).
+    { intros y Hy. split; [apply Nat.div_lt_upper_bound; lia|apply Nat.mod_upper_bound; lia]. }
+    destruct (B r Hr), (B c Hc). rewrite !H by assumption. reflexivity.
   Qed.
 End LI1.
 
@@ -578,11 +661,18 @@ Section MLE1.
 
   (* the two rows of _a_mat for input l, observable m: projectors (1 +- P_m)/2 *)
   Definition a_row1 (l : inlab) (m : pauli) (s : bool) : nat -> K :=
+    fun x => vec 4 (kron o 2%nat (fun i j => (mid o i j + sg o s * pauli_mat m i j) * half o) (mtrans (rho_mat l))) x
+             * kinv o (pow2 o 2).
+  Definition a_row1_pinned (l : inlab) (m : pauli) (s : bool) : nat -> K :=
     fun x => vec 4 (kron o 2%nat (rho_mat l) (mtrans (fun i j => (mid o i j + sg o s * pauli_mat m i j) * half o))) x
              * kinv o (pow2 o 2).
 
   Lemma a_rows_1 :
     a_rows o ii 1 = flat_map (fun l => flat_map (fun m => [a_row1 l m false; a_row1 l m true]) [PX; PY; PZ]) mle_inputs.
+  Proof. reflexivity. Qed.
+  Lemma a_rows_pinned_1 :
+    a_rows_pinned o ii 1
+    = flat_map (fun l => flat_map (fun m => [a_row1_pinned l m false; a_row1_pinned l m true]) [PX; PY; PZ]) mle_inputs.
   Proof. reflexivity. Qed.
 
   Lemma kinv_four : kinv o ((one + one) * ((one + one) * one)) = hh * hh * (hh * hh).
@@ -590,16 +680,47 @@ Section MLE1.
     apply ui_inv. transitivity (((one + one) * (hh * hh)) * ((one + one) * (hh * hh))); [ring|]. rewrite tr_hh. ring.
   Qed.
 
-  (* forward model of the MLE at the CONJUGATE of the LI matrix: (1 +- <P_m>)/2 / 4 for
-     the state V rho_l V^+ - for every matrix V *)
-  Theorem mle_forward_model (V : @mat K) l m s : In m [PX; PY; PZ] ->
-    sumn 16 (fun x => a_row1 l m s x * vec 4 (mtrans (mconj o (choi_T (o:=o) V))) x)
-    = (trace o 2 (out_rho o 2 V (rho_mat l)) + sg o s * pauli_expect (o:=o) (ii:=ii) 1 (out_rho o 2 V (rho_mat l)) [m])
-      * (hh * hh) * (hh * hh * (hh * hh)).
+  (* the probability the model assigns to outcome +-1 of observable m on input l, times the
+     weight 1/4 of _a_mat: (tr +- <P_m>)/2 / 4 for the state V rho_l V^+ *)
+  Definition born_pm (V : @mat K) (l : inlab) (m : pauli) (s : bool) : K :=
+    (trace o 2 (out_rho o 2 V (rho_mat l)) + sg o s * pauli_expect (o:=o) (ii:=ii) 1 (out_rho o 2 V (rho_mat l)) [m])
+    * (hh * hh) * (hh * hh * (hh * hh)).
+
+  (* forward model of the MLE at the reference choi_from_unitary(V) itself - for every matrix V *)
+  Lemma mle_forward_row (V : @mat K) l m s : In m [PX; PY; PZ] ->
+    sumn 16 (fun x => a_row1 l m s x * vec 4 (mtrans (choi_from_unitary o 2 V)) x) = born_pm V l m s.
   Proof.
-    intros Hm. assert (Hii := tr_ii (o:=o)). simpl in Hm.
+    intros Hm. assert (Hii := tr_ii (o:=o)). simpl in Hm. unfold born_pm.
     destruct Hm as [<-|[<-|[<-|[]]]]; destruct l, s; norm; rewrite ?kinv_four;
       first [ring | ring [Hii] | ring [Hii (tr_hh (o:=o) (ii:=ii) (hh:=hh))]].
+  Qed.
+
+  (* on the pinned tree the same holds at the CONJUGATE of what LI returned *)
+  Lemma mle_forward_row_pinned (V : @mat K) l m s : In m [PX; PY; PZ] ->
+    sumn 16 (fun x => a_row1_pinned l m s x * vec 4 (mtrans (mconj o (choi_T (o:=o) V))) x) = born_pm V l m s.
+  Proof.
+    intros Hm. assert (Hii := tr_ii (o:=o)). simpl in Hm. unfold born_pm.
+    destruct Hm as [<-|[<-|[<-|[]]]]; destruct l, s; norm; rewrite ?kinv_four;
+      first [ring | ring [Hii] | ring [Hii (tr_hh (o:=o) (ii:=ii) (hh:=hh))]].
+  Qed.
+
+  (* _p_vec before clipping, the whole vector, in the order of the rows of _a_mat *)
+  Theorem mle_forward_model (V : @mat K) :
+    p_lin o ii 1 (choi_from_unitary o 2 V)
+    = flat_map (fun l => flat_map (fun m => [born_pm V l m false; born_pm V l m true]) [PX; PY; PZ]) mle_inputs.
+  Proof.
+    unfold p_lin, p_lin_of. rewrite a_rows_1. change (4 ^ 1 * 4 ^ 1)%nat with 16. change (4 ^ 1)%nat with 4.
+    unfold mle_inputs. cbn [flat_map map app].
+    repeat (f_equal; [apply mle_forward_row; simpl; tauto|]). reflexivity.
+  Qed.
+
+  Theorem mle_forward_model_pinned (V : @mat K) :
+    p_lin_of o (a_rows_pinned o ii 1) 1 (mconj o (choi_T (o:=o) V))
+    = flat_map (fun l => flat_map (fun m => [born_pm V l m false; born_pm V l m true]) [PX; PY; PZ]) mle_inputs.
+  Proof.
+    unfold p_lin_of. rewrite a_rows_pinned_1. change (4 ^ 1 * 4 ^ 1)%nat with 16. change (4 ^ 1)%nat with 4.
+    unfold mle_inputs. cbn [flat_map map app].
+    repeat (f_equal; [apply mle_forward_row_pinned; simpl; tauto|]). reflexivity.
   Qed.
 End MLE1.
 
@@ -608,25 +729,122 @@ Section Grad.
   (* Hilbert-Schmidt inner product <G, D> = tr(G^+ D) on DxD matrices *)
   Definition hs_inner (D : nat) (G Dm : @mat K) : K :=
     sumn o D (fun r => sumn o D (fun c => kmul o (kconj o (G r c)) (Dm r c))).
+  (* weights n_k / p_k(choi) of _gradient, for a given A matrix *)
+  Definition grad_weights (rows : list (nat -> K)) (n : nat) (choi : @mat K) (n_vec : list K) : list K :=
+    map (fun np => kmul o (fst np) (kinv o (snd np))) (combine n_vec (p_vec_of o rows n choi)).
   (* derivative at t = 0 of  -sum_k n_k log p_k(choi + t Dm)  with p = the model's forward
      map: p_k(choi + t Dm) = p_k(choi) + t p_lin(Dm)_k (lemma p_lin_linear), so the derivative
-     is  -sum_k (n_k / p_k(choi)) * p_lin(Dm)_k *)
-  Definition dir_deriv (n : nat) (choi : @mat K) (n_vec : list K) (Dm : @mat K) : K :=
-    kopp o (suml o (combine (combine n_vec (p_vec o ii n choi)) (p_lin o ii n Dm))
-                 (fun npd => kmul o (kmul o (fst (fst npd)) (kinv o (snd (fst npd)))) (snd npd))).
+     is  -sum_k (n_k / p_k(choi)) * p_lin(Dm)_k   (where no p_k is clipped) *)
+  Definition dir_deriv_of (rows : list (nat -> K)) (n : nat) (choi : @mat K) (n_vec : list K) (Dm : @mat K) : K :=
+    kopp o (suml o (combine (grad_weights rows n choi n_vec) (p_lin_of o rows n Dm))
+                 (fun wp => kmul o (fst wp) (snd wp))).
+  Definition dir_deriv (n : nat) := dir_deriv_of (a_rows o ii n) n.
+  Definition dir_deriv_pinned (n : nat) := dir_deriv_of (a_rows_pinned o ii n) n.
+  (* a row of the A matrix as a D x D matrix *)
+  Definition row_mat (D : nat) (row : nat -> K) : @mat K := unvec o D row.
 End Grad.
 
 Section GradLemmas.
   Context {K : Type} {o : ops K} {SR : StarRing o} (ii : K).
   Let R := sr_ring (o:=o).
   Add Ring Kgl : R.
-  Lemma p_lin_linear n (A B : @mat K) (t : K) :
-    p_lin o ii n (fun i j => kadd o (A i j) (kmul o t (B i j)))
-    = map (fun ab => kadd o (fst ab) (kmul o t (snd ab))) (combine (p_lin o ii n A) (p_lin o ii n B)).
+  Local Notation "a + b" := (kadd o a b).
+  Local Notation "a * b" := (kmul o a b).
+  Local Notation "- a" := (kopp o a).
+  Local Notation sumn := (sumn o).
+  Local Notation suml := (suml o).
+
+  (* the forward model is linear in the Choi matrix: p(A + t B) = p(A) + t p(B) *)
+  Lemma p_lin_of_linear rows n (A B : @mat K) (t : K) :
+    p_lin_of o rows n (fun i j => A i j + t * B i j)
+    = map (fun ab => fst ab + t * snd ab) (combine (p_lin_of o rows n A) (p_lin_of o rows n B)).
   Proof.
-    unfold p_lin. rewrite combine_map, map_map. apply map_ext. intros row. cbn [fst snd].
+    unfold p_lin_of. rewrite combine_map, map_map. apply map_ext. intros row. cbn [fst snd].
     rewrite <- sumn_mul_l, <- sumn_add. apply sumn_ext. intros x _. unfold vec, mtrans. ring.
   Qed.
+  Lemma p_lin_linear n (A B : @mat K) (t : K) :
+    p_lin o ii n (fun i j => A i j + t * B i j)
+    = map (fun ab => fst ab + t * snd ab) (combine (p_lin o ii n A) (p_lin o ii n B)).
+  Proof. apply p_lin_of_linear. Qed.
+
+  Lemma div_mod_block' D r c : c < D -> (r * D + c) / D = r /\ (r * D + c) mod D = c.
+  Proof.
+    intros Hc. split.
+    - rewrite Nat.div_add_l by lia. rewrite Nat.div_small by lia. lia.
+    - rewrite Nat.add_comm, Nat.mod_add by lia. apply Nat.mod_small. lia.
+  Qed.
+
+  (* p_lin(Dm)_k = tr(R_k Dm) with R_k the k-th row of the A matrix as a matrix *)
+  Lemma p_lin_of_trace rows n (Dm : @mat K) :
+    p_lin_of o rows n Dm = map (fun row => trace o (4 ^ n) (mmul o (4 ^ n) (row_mat o (4 ^ n) row) Dm)) rows.
+  Proof.
+    unfold p_lin_of. apply map_ext. intros row. rewrite sumn_prod. unfold trace, mmul.
+    apply sumn_ext. intros r Hr. apply sumn_ext. intros c Hc.
+    unfold vec, mtrans, row_mat, unvec. destruct (div_mod_block' (4 ^ n) r c Hc) as [-> ->]. reflexivity.
+  Qed.
+
+  Lemma suml_combine_map {A B} (f : A -> K) (l : list A) (w : list B) (g : A * B -> K) (h : K * B -> K) :
+    (forall a b, g (a, b) = h (f a, b)) ->
+    suml (combine l w) g = suml (combine (map f l) w) h.
+  Proof.
+    intros H. revert w. induction l as [|a l IH]; intros [|b w]; simpl; try reflexivity.
+    rewrite IH, H. reflexivity.
+  Qed.
+  Lemma suml_combine_swap {A B} (l : list A) (w : list B) (g : A * B -> K) :
+    suml (combine l w) g = suml (combine w l) (fun ba => g (snd ba, fst ba)).
+  Proof.
+    revert w. induction l as [|a l IH]; intros [|b w]; simpl; try reflexivity. rewrite IH. reflexivity.
+  Qed.
+
+  (* the matrix a gradient routine returns from the rows and the weights: G = - sum_k w_k R_k *)
+  Lemma gradient_of_rows D (rows : list (nat -> K)) (w : list K) r c :
+    unvec o D (fun x => - suml (combine rows w) (fun rw => fst rw x * snd rw)) r c
+    = - suml (combine rows w) (fun rw => snd rw * row_mat o D (fst rw) r c).
+  Proof. unfold unvec, row_mat, unvec. f_equal. apply suml_ext. intros [row wk] _. cbn [fst snd]. ring. Qed.
+
+  (* tr(G Dm) with G = - sum_k w_k R_k is - sum_k w_k tr(R_k Dm) *)
+  Lemma trace_gradient_of_rows D (rows : list (nat -> K)) (w : list K) (Dm : @mat K) :
+    trace o D (mmul o D (unvec o D (fun x => - suml (combine rows w) (fun rw => fst rw x * snd rw))) Dm)
+    = - suml (combine w (map (fun row => trace o D (mmul o D (row_mat o D row) Dm)) rows))
+             (fun wp => fst wp * snd wp).
+  Proof.
+    rewrite (suml_combine_swap w).
+    rewrite <- (suml_combine_map (fun row => trace o D (mmul o D (row_mat o D row) Dm)) rows w
+                 (fun rw => snd rw * trace o D (mmul o D (row_mat o D (fst rw)) Dm))) by (intros; reflexivity).
+    unfold trace, mmul.
+    rewrite (sumn_ext D _ (fun k => - sumn D (fun k0 =>
+               suml (combine rows w) (fun rw => snd rw * (row_mat o D (fst rw) k k0 * Dm k0 k))))).
+    2:{ intros k _. transitivity (sumn D (fun k0 => - suml (combine rows w) (fun rw => snd rw * (row_mat o D (fst rw) k k0 * Dm k0 k)))).
+        - apply sumn_ext. intros k0 _. rewrite gradient_of_rows.
+          transitivity (- (suml (combine rows w) (fun rw => snd rw * row_mat o D (fst rw) k k0) * Dm k0 k)); [ring|].
+          rewrite <- suml_mul_r. f_equal. apply suml_ext. intros; ring.
+        - transitivity (sumn D (fun k0 => (- k1 o) * suml (combine rows w) (fun rw => snd rw * (row_mat o D (fst rw) k k0 * Dm k0 k)))).
+          + apply sumn_ext; intros; ring.
+          + rewrite sumn_mul_l. ring. }
+    transitivity (- sumn D (fun k => sumn D (fun k0 => suml (combine rows w) (fun rw => snd rw * (row_mat o D (fst rw) k k0 * Dm k0 k))))).
+    { transitivity (sumn D (fun k => (- k1 o) * sumn D (fun k0 => suml (combine rows w) (fun rw => snd rw * (row_mat o D (fst rw) k k0 * Dm k0 k))))).
+      - apply sumn_ext; intros; ring.
+      - rewrite sumn_mul_l. ring. }
+    f_equal.
+    rewrite (sumn_ext D _ (fun k => suml (combine rows w) (fun rw => sumn D (fun k0 => snd rw * (row_mat o D (fst rw) k k0 * Dm k0 k)))))
+      by (intros; symmetry; apply suml_sumn_swap).
+    rewrite <- suml_sumn_swap. apply suml_ext. intros [row wk] _. cbn [fst snd].
+    rewrite <- sumn_mul_l. apply sumn_ext. intros k _. rewrite <- sumn_mul_l. reflexivity.
+  Qed.
+
+  (* THE GRADIENT IDENTITY of the repaired code, every n, every choi, data and direction:
+     tr(G Dm) is the directional derivative of the cost along Dm (this is also the quantity
+     the line search of pgdb uses) *)
+  Theorem gradient_is_derivative n (choi : @mat K) (n_vec : list K) (Dm : @mat K) :
+    trace o (4 ^ n) (mmul o (4 ^ n) (gradient o ii n choi n_vec) Dm) = dir_deriv o ii n choi n_vec Dm.
+  Proof.
+    unfold gradient, dir_deriv, dir_deriv_of. rewrite trace_gradient_of_rows, p_lin_of_trace. reflexivity.
+  Qed.
+
+  (* G = - sum_k w_k R_k *)
+  Theorem gradient_sum_of_rows n (choi : @mat K) (n_vec : list K) r c :
+    gradient o ii n choi n_vec r c
+    = - suml (combine (a_rows o ii n) (grad_weights o (a_rows o ii n) n choi n_vec))
+             (fun rw => snd rw * row_mat o (4 ^ n) (fst rw) r c).
+  Proof. unfold gradient. rewrite gradient_of_rows. reflexivity. Qed.
 End GradLemmas.
-
-
